@@ -30,12 +30,12 @@ def prepare(ctx):
 # (text, scope) — scope 'file' or 'block'; every construct is a complete line; the error is reported at one of its tokens
 VIOLATIONS = [
     ("int e%d = undeclared_q;", "file"), ("_Static_assert(0, \"boom\");", "file"), ("_Static_assert(1 == 2);", "file"), ("int e%d = 1q;", "file"),
-    ("int e%d e2;", "file"), ("int e%d = 'ab';", "file"), ("int e%d = (1;", "file"), ("int e%d[-1];", "file"),
-    ("int e%d = 0x;", "file"), ("int e%d = 1.0q;", "file"), ("unsigned float e%d;", "file"), ("int e%d = sizeof(void);", "file"), ("typedef int t%d, t%d = 1;"[:0] or "int e%d = 1 +;", "file"),
-    ("struct s%d { int a; int a2 };", "file"), ("enum { E%d = 1.5 };", "file"), ("int e%d = \"x\" * 2;", "file"), ("int e%d = 08;"[:0] or "int e%d = 1 ? 2;", "file"),
+    ("int e%d e2;", "file"), ("int e%d = (1;", "file"), ("int e%d[-1];", "file"),
+    ("int e%d = 0x;", "file"), ("int e%d = 1.0qq;", "file"), ("unsigned float e%d;", "file"), ("int e%d = sizeof(struct inc_f);", "file"), ("typedef int t%d, t%d = 1;"[:0] or "int e%d = 1 +;", "file"),
+    ("struct s%d { int a; int a2 +; };", "file"), ("enum { E%d = 1.5 };", "file"), ("int e%d = \"x\" * 2;", "file"), ("int e%d = 08;"[:0] or "int e%d = 1 ? 2;", "file"),
     ("undeclared_q = 1;", "block"), ("break;", "block"), ("continue;", "block"), ("case 1: ;", "block"), ("default: ;", "block"), ("int z%d = undeclared_q + 1;", "block"),
     ("return undeclared_q;", "block"), ("_Static_assert(0, \"in block\");", "block"), ("1 = 2;"[:0] or "int z%d z2;", "block"), ("goto ;", "block"),
-    ("switch (1) { case 1: case 1: ; }", "block"), ("int z%d = *1;", "block"), ("struct nosuch_b z%d;", "block"), ("if (1 {}", "block"), ("z_undecl();", "block"),
+    ("switch (1) { case 1: case 1: ; }", "block"), ("int z%d = *1;", "block"), ("struct nosuch_b z%d;", "block"), ("if (1 {}", "block"), ("z_undecl(1)(;", "block"),
     # found only when the statement is lowered (qbe.c), after it has been parsed: stores to const objects declared by the host function
     ("l_cq = 2;", "block"), ("l_cq += l_acc;", "block"), ("l_cs.m = 3;", "block"), ("l_acc = (l_cq = 5);", "block"), ("l_ca[1] = 0;", "block"), ("*l_pc = 1;", "block"), ("l_cs = l_cs;", "block"),
     # violations inside type names (abstract declarators: no identifier whose location could be taken)
@@ -100,7 +100,7 @@ def decorated(draw):
             labels.add("splice-run")
             return
         if d == 0:
-            lines.append("# %d \"%s\"%s" % (draw(st.integers(1, 5000)), draw(st.sampled_from(NAMES)), draw(st.sampled_from(["", " 1", " 2", " 1 3", " 3 4"]))))
+            lines.append("# %d \"%s\"%s" % (draw(st.integers(1, 5000)), draw(st.sampled_from(NAMES)), draw(st.sampled_from(["", "", "", " 3", " 3 4", " 3", " 1", " 2", " 1 3"]))))
             labels.add("marker")
             if draw(st.integers(0, 3)) == 0:
                 splice_run(block)
@@ -278,6 +278,12 @@ def check_text(case, ctx):
     if gloc not in want:
         res.discard.append("tracker-and-gcc-disagree")
         res.labels.append("TRACKER-GCC-MISMATCH")
+        res.labels.append("mismatch-vio:" + case["vio"][:30])
+        if os.environ.get("VERIF_DUMP_DISCARDS"):
+            dd = os.environ["VERIF_DUMP_DISCARDS"]
+            os.makedirs(dd, exist_ok=True)
+            with open(os.path.join(dd, "mismatch-%s.c" % sha(text)), "w") as f:
+                f.write("/* want %s gcc %s\n%s */\n%s" % (sorted(want), gloc, g.err.decode(errors="replace")[:400], text))
         return res
     if p.rc == 0:
         res.discard.append("cproc-accepts (C10's subject)")
